@@ -30,6 +30,9 @@ REQUIRED_CLASSES = {"all": ["fmt:json", "fmt:xml", "json:record_array", "xml:sub
 ALL_FORMAL = 44   # (statement, formal key) pairs of the 18 kinds
 
 
+KNOWN_MATCHERS = {"printed_bundle_id_collision": c01._printed_bundle_id_collision}
+
+
 def budget(tier):
     return {"shards": 8, "examples": 500} if tier == "quick" else {"shards": 16, "examples": 6000}
 
